@@ -57,7 +57,7 @@ NewStream == [sent |-> 0, granted |-> 0, grantedE |-> 0, arrived |-> 0, consumed
               finE |-> FALSE, closeE |-> FALSE, rfinE |-> FALSE, finD |-> FALSE, closeD |-> FALSE, rfinD |-> FALSE,
               closeP |-> FALSE, rfinP |-> FALSE, cls |-> "open"]
 Ensure(f, k) == IF k \in DOMAIN f THEN f ELSE f @@ (k :> NewStream)
-Misc0 == [allDropped |-> FALSE, faulted |-> FALSE, apiPairs |-> {}, lfin |-> {}, fkind |-> "", fdir |-> 0, early |-> FALSE]
+Misc0 == [allDropped |-> FALSE, faulted |-> FALSE, apiPairs |-> {}, lfin |-> {}, fkind |-> "", fdir |-> 0, early |-> FALSE, closedApi |-> {}]
 Inc(c, k) == Put(c, k, Get(c, k, 0) + 1)
 
 Init == /\ l = 1 /\ cfg = <<>> /\ fly = <<<<>>, <<>>>> /\ hdrE = <<None, None>> /\ hdrD = <<None, None>>
@@ -307,6 +307,10 @@ ApiDone ==
               /\ bad' = IF ~(s.closeP \/ s.rfinP) /\ ~misc.faulted /\ ended[o.ep] = "running"
                         THEN Flag("C11", "closed() resolved although the remote receiver is neither closed nor dropped") ELSE bad
               /\ UNCHANGED <<st, cnt, misc>>
+         ELSE IF o.kind = "close" /\ Ev.res = "ok" THEN
+              \* close() of a receiver completed: the close notification must (have) go(ne) out to the sender
+              /\ misc' = [misc EXCEPT !.closedApi = @ \cup {OpStream(o)}]
+              /\ UNCHANGED <<st, cnt, bad>>
          ELSE IF o.kind = "client_connect" THEN
               IF Ev.res = "ok" THEN
                    /\ misc' = [misc EXCEPT !.apiPairs = @ \cup {<<o.ep, Ev.local, Ev.remote>>}]
@@ -382,6 +386,7 @@ Quiescent ==
            connDead == {e \in {1, 2} : fp[e] /\ e \in misc.lfin /\ ended[e] = "running" /\ \E i \in pend : ops[i].kind = "client_connect" /\ ops[i].ep = e}
            closeStuck == \E i \in pend : ops[i].kind = "close" /\ ended[ops[i].ep] = "running"
            accStuck == {e \in {1, 2} : fp[e] /\ PendAccept(e) /\ Unanswered(Oth(e)) > heldN[e] /\ ended[e] = "running"}
+           closeLost == {k \in misc.closedApi : k \in DOMAIN st /\ ~st[k].closeE /\ ~st[k].rfinE}
            settled == Has("settled") /\ Ev.settled
            live == ~misc.faulted /\ ~Has("late")     \* liveness verdicts apply (healthy transport, main quiescence point)
            why == First(<<<<settled /\ pend # {}, "C06", "operation still pending after the transport failed and the timeout elapsed">>,
@@ -392,6 +397,7 @@ Quiescent ==
                           <<live /\ rleak # {}, "C03", "credit leak: credit the receiver decided to return never reached the wire">>,
                           <<live /\ closeStuck, "C03", "closing a receiver is blocked by another operation's abandoned place in the dispatcher queue">>,
                           <<live /\ closeStuck, "C11", "closing a receiver never completes on a healthy connection">>,
+                          <<live /\ closeLost # {}, "C11", "close() of a receiver completed but no close notification was ever sent to the sender">>,
                           <<live /\ noeos # {}, "C11", "receiver still waiting although the sender's finish was delivered">>,
                           <<live /\ noclosed # {}, "C11", "closed() still pending although the receiver's close/finish was delivered">>,
                           <<live /\ deadsend # {}, "C11", "send still pending although the receiver's close/finish was delivered">>,
